@@ -10,15 +10,7 @@
    fuel of the model measures - is at most 6 * mu + rank. *)
 From Coq Require Import String Lia.
 From TW Require Import Bytes GenToken GenParser Lexer Ast Parser GenTie.
-
-Definition is_termT (t : tok) : bool := tok_eqb t T_EOF || tok_eqb t T_ILLEGAL.
-
-(* the last token is EOF or ILLEGAL *)
-Fixpoint tinv (ts : list token) : bool :=
-  match ts with
-  | [] => false
-  | t :: ts' => match ts' with [] => is_termT (ttype t) | _ :: _ => tinv ts' end
-  end.
+From TW Require Export TokenShape.
 
 Definition mu (st : pstate) : nat := List.length (toks st) - 1.
 
